@@ -40,6 +40,28 @@ Theorem payload_is_image : forall sc, scene_ok sc ->
 Proof. exact payload_decodes. Qed.
 Print Assumptions payload_is_image.
 
+(* every mesh of the document has one primitive; it belongs to the mesh [m] of one of the scene's models
+   (also when the geometry was written for an earlier model with the same mesh pointer): the index
+   accessor has the width the attribute length calls for, one element per index of [m], and decodes to
+   exactly those indices; every attribute listed is an attribute of [m] under its glTF name, all with
+   the same count [attr_len m] (prim_counts_agree), of the right component type and arity, and decodes
+   to exactly the attribute's float32 / byte image *)
+Theorem prim_counts_agree_and_carry_mesh : forall sc, scene_ok sc ->
+  let st := run sc in let s := to_summary st in
+  forall gm, In gm (s_meshes s) ->
+  exists p mo ii, In mo (sc_models sc) /\ gm_prims gm = [p] /\ gp_idx p = Some ii /\
+    let m := mo_mesh mo in
+    (exists a, nth_error (s_accs s) (N.to_nat ii) = Some a /\
+               a_comp a = (if attr_len m <=? 65535 then 5123 else 5125) /\ a_k a = 1 /\ a_count a = len (me_idx m) /\
+               decode_acc (s_views s) (buf st) a = Some (map (fun i => [i]) (me_idx m))) /\
+    forall name ai, In (name, ai) (gp_attrs p) ->
+      exists k nv a, attr_of m k nv /\ name = gltf_name (fst nv) /\
+        nth_error (s_accs s) (N.to_nat ai) = Some a /\
+        a_comp a = comp_code (attr_comp (fst nv)) /\ a_k a = k /\ a_count a = attr_len m /\
+        decode_acc (s_views s) (buf st) a = Some (expand (snd nv)).
+Proof. exact prims_carry. Qed.
+Print Assumptions prim_counts_agree_and_carry_mesh.
+
 (* index accessors: UNSIGNED_SHORT iff the attribute length is at most 65535 (the code's threshold:
    attributeSize > math.MaxUint16 selects UNSIGNED_INT) ... *)
 Theorem index_width_ok : forall idx n i,
